@@ -53,6 +53,13 @@ PROPS = {
                       "tlx/algorithm/multiway_merge_splitting.hpp", "tlx/thread_barrier_mutex.hpp", "tlx/container/loser_tree.hpp",
                       "tlx/container/simple_vector.hpp"],
                 stub=["std::thread", "std::mutex", "std::condition_variable (scheduler shims over real ::std objects)"]),
+    "C07": dict(harness="c07_pmerge", concurrent=True,
+                runs=dict(quick=dict(plain=100000, asan=20000, tsan=20000),
+                          thorough=dict(plain=2000000, asan=400000, tsan=400000)),
+                real=["tlx/algorithm/parallel_multiway_merge.hpp", "tlx/algorithm/parallel_multiway_merge.cpp",
+                      "tlx/algorithm/multiway_merge_splitting.hpp", "tlx/algorithm/multisequence_partition.hpp",
+                      "tlx/algorithm/multiway_merge.hpp", "tlx/algorithm/merge_advance.hpp", "tlx/container/loser_tree.hpp"],
+                stub=["std::thread (scheduler shim over real ::std::thread)"]),
 }
 
 SIM_NAMES = ["strategy", "param", "pct_k", "spurious_permille", "spurious_budget", "notify_choice",
@@ -142,6 +149,15 @@ def run_worker(harness, flavour, args, cpu=None, timeout=3600):
     return recs, rc, err
 
 
+def norm_class(cls):
+    """Hard crashes of an uninstrumented build show up as SIGSEGV, SIGABRT (glibc
+    heap checks) or a crash inside the crash handler, depending on heap state:
+    they are one class."""
+    if cls and (cls.startswith("crash:SIG") or re.match(r"died:rc=(-\d+|78|79)$", cls)):
+        return "crash"
+    return cls
+
+
 def finish_record(rec, rc, err):
     """Attach the sanitizer class parsed from stderr to a failing record."""
     if rec.get("ok"):
@@ -150,6 +166,7 @@ def finish_record(rec, rc, err):
         cls, excerpt = classify_stderr(err)
         rec["cls"] = cls or "sanitizer:unclassified"
         rec["detail"] = excerpt[:1500]
+    rec["cls"] = norm_class(rec.get("cls"))
     return rec
 
 
@@ -253,7 +270,7 @@ def run_batch(prop, spec, tier, seed, agg):
                     # the worker died without leaving a record for the run
                     idx = first + done
                     cls, excerpt = classify_stderr(err)
-                    rec = dict(i=idx, ok=False, cls=cls or ("died:rc=%d" % rc), detail=excerpt[:1500] or err[-800:],
+                    rec = dict(i=idx, ok=False, cls=norm_class(cls or ("died:rc=%d" % rc)), detail=excerpt[:1500] or err[-800:],
                                flavour=flavour, norecord=True)
                     agg.add(flavour, rec, False)
                     done += 1
@@ -297,7 +314,9 @@ def run_replay(harness, flavour, state, cpu=None, seed=None):
     """Execute an explicit (cfg, sim, ops, choices) state in a fresh process.
     seed != None: explicit workload, decisions re-sampled from that seed."""
     path = tmp_name(".replay")
-    write_replay_text(path, state["cfg"], state["sim"], state["ops"], state["choices"], seed)
+    if seed is None and state.get("choices") is None:
+        seed = state.get("seed")          # decisions unknown (the run dies without a record): re-derive from the run seed
+    write_replay_text(path, state["cfg"], state["sim"], state["ops"], state.get("choices") or [], seed)
     try:
         recs, rc, err = run_worker(harness, flavour, ["--replay", path], cpu, timeout=900)
     finally:
@@ -307,14 +326,15 @@ def run_replay(harness, flavour, state, cpu=None, seed=None):
             pass
     if not recs:
         cls, excerpt = classify_stderr(err)
-        return dict(ok=False, cls=cls or ("died:rc=%d" % rc), detail=excerpt[:1500] or err[-800:], fp="0")
+        return dict(ok=False, cls=norm_class(cls or ("died:rc=%d" % rc)), detail=excerpt[:1500] or err[-800:], fp="0")
     return finish_record(recs[-1], rc, err)
 
 
-def state_of(rec):
+def state_of(rec, seed=None):
     return dict(cfg=list(rec.get("cfg", [])), sim=list(rec.get("sim", [])),
                 ops=[list(o) for o in rec.get("ops", [])],
-                choices=[list(c) for c in rec.get("choices", [])])
+                choices=[list(c) for c in rec["choices"]] if "choices" in rec else None,
+                seed=seed)
 
 
 def parallel_map(items, fn):
@@ -362,7 +382,7 @@ class Shrinker:
             return None
         variants = [("explicit", None)]
         if self.concurrent:
-            if st["choices"]:
+            if st.get("choices"):
                 variants.append(("none", None))
             variants += [("seed", 1000 + k) for k in range(self.RESEEDS)]
 
@@ -379,7 +399,10 @@ class Shrinker:
                 if kind == "none":
                     out["choices"] = []
                 elif kind == "seed":
-                    out["choices"] = [list(c) for c in r.get("choices", [])]
+                    if "choices" in r:
+                        out["choices"] = [list(c) for c in r["choices"]]
+                    else:
+                        out["choices"], out["seed"] = None, seed
                 return out
         return None
 
@@ -447,7 +470,7 @@ class Shrinker:
 
     def run(self):
         for _ in range(2):
-            before = (len(self.state["ops"]), len(self.state["choices"]))
+            before = (len(self.state["ops"]), len(self.state["choices"] or []))
             if self.state["ops"]:
                 self.ddmin("ops")
             self.lower_ints()
@@ -455,7 +478,7 @@ class Shrinker:
                 self.faults_off()
                 if self.state["choices"]:
                     self.ddmin("choices", explicit_only=True)
-            if (len(self.state["ops"]), len(self.state["choices"])) == before or time.time() > self.deadline:
+            if (len(self.state["ops"]), len(self.state["choices"] or [])) == before or time.time() > self.deadline:
                 break
         return self.state
 
@@ -515,36 +538,65 @@ def handle_failures(prop, spec, seed, tier, agg, known):
             by_class[(fl, r["cls"])].append(r)
     violations, known_hits, fault = [], {}, False
     seen_final = set()
-    t_end = time.time() + (600 if tier == "quick" else 1800)
+    t_end = time.time() + (420 if tier == "quick" else 1800)
+    per_class = 60 if tier == "quick" else 150
+    handled = 0
     for (flavour, cls), recs in by_class.items():
         r0 = recs[0]
+        if handled >= 5 and violations:
+            log("further failing class not minimised: %s (%d runs, first run %d, flavour %s)" % (cls, len(recs), r0["i"], flavour))
+            continue
+        handled += 1
         if cls == "machinery":
             log("MACHINERY-FAULT %s: %s" % (cls, r0.get("detail", "")[:300]))
             fault = True
             continue
-        # gate: two fresh processes must reproduce class and fingerprint
-        args = ["--runs", str(r0["i"]), "1", "1", "--seed", str(seed), "--tier", tier, "--full"]
-        g = []
-        for _ in range(2):
-            rr, rc, err = run_worker(harness, flavour, args)
-            if rr:
-                g.append(finish_record(rr[-1], rc, err))
-            else:
-                c2, ex = classify_stderr(err)
-                g.append(dict(ok=False, cls=c2 or "died:rc=%d" % rc, fp="0", detail=ex))
-        if any(x.get("ok") for x in g) or g[0].get("cls") != g[1].get("cls") or g[0].get("fp") != g[1].get("fp") \
-                or g[0].get("cls") != cls:
+        # gate: two fresh processes must fail, with the same class and fingerprint.
+        # A memory-corrupting defect can show differently inside a long-lived
+        # worker than in a fresh process (heap state), so the class that is
+        # gated, shrunk and reported is the one the fresh processes agree on;
+        # if the flavour at hand does not reproduce, the same run (same seed,
+        # hence same workload and decisions) is tried in the asan flavour.
+        def gate(fl):
+            args = ["--runs", str(r0["i"]), "1", "1", "--seed", str(seed), "--tier", tier, "--full"]
+            g = []
+            for _ in range(2):
+                rr, rc, err = run_worker(harness, fl, args)
+                if rr:
+                    g.append(finish_record(rr[-1], rc, err))
+                else:
+                    c2, ex = classify_stderr(err)
+                    g.append(dict(ok=False, cls=norm_class(c2 or "died:rc=%d" % rc), fp="0", detail=ex, norecord=True))
+            good = (not any(x.get("ok") for x in g)) and g[0].get("cls") == g[1].get("cls") and g[0].get("fp") == g[1].get("fp")
+            return good, g
+        good, g = gate(flavour)
+        if (not good or g[0].get("cls") == "crash") and flavour != "asan" and "asan" in spec["runs"][tier] and os.path.exists(binpath(harness, "asan")):
+            good2, g2 = gate("asan")
+            if good2:
+                log("note: run %d (%s, class %s) does not reproduce in a fresh %s process; it does under asan as %s" %
+                    (r0["i"], flavour, cls, flavour, g2[0].get("cls")))
+                good, g, flavour = good2, g2, "asan"
+        if not good:
             log("NON-REPRODUCIBLE candidate property=%s flavour=%s run=%d class=%s gate=%s/%s" %
-                (prop, flavour, r0["i"], cls, g[0].get("cls"), g[1].get("cls")))
+                (prop, flavour, r0["i"], cls, g[0].get("cls") or "pass", g[1].get("cls") or "pass"))
             fault = True
             continue
+        if g[0].get("cls") != cls:
+            log("note: run %d shows as %s in a fresh process (was %s inside the worker)" % (r0["i"], g[0].get("cls"), cls))
+            cls = g[0].get("cls")
         full = g[0]
         if "cfg" not in full:
-            log("NO-PLAN for candidate property=%s flavour=%s run=%d class=%s (worker died before recording)" %
-                (prop, flavour, r0["i"], cls))
-            fault = True
-            continue
-        state = state_of(full)
+            # the run dies without leaving a record: take the plan from a dry run,
+            # the decisions are re-derived from the run seed
+            rr, rc, err = run_worker(harness, flavour, ["--runs", str(r0["i"]), "1", "1", "--seed", str(seed), "--tier", tier, "--dry"])
+            if not rr or "cfg" not in rr[-1]:
+                log("NO-PLAN for candidate property=%s flavour=%s run=%d class=%s" % (prop, flavour, r0["i"], cls))
+                fault = True
+                continue
+            full = dict(rr[-1], cls=cls)
+            full.pop("choices", None)
+        run_seed = r0.get("seed") or full.get("seed")
+        state = state_of(full, seed=int(run_seed))
         # the explicit state must fail the same way before we shrink it
         chk = run_replay(harness, flavour, state)
         if chk.get("ok") or chk.get("cls") != cls:
@@ -552,10 +604,10 @@ def handle_failures(prop, spec, seed, tier, agg, known):
                 (prop, flavour, r0["i"], cls, chk.get("cls")))
             fault = True
             continue
-        sh = Shrinker(harness, flavour, state, cls, min(t_end, time.time() + 150), spec["concurrent"])
+        sh = Shrinker(harness, flavour, state, cls, min(t_end, time.time() + per_class), spec["concurrent"])
         state = sh.run()
         log("shrunk %s: ops %d -> %d, non-default decisions %d -> %d (%d re-executions)" %
-            (cls, len(full.get("ops", [])), len(state["ops"]), len(full.get("choices", [])), len(state["choices"]), sh.tests))
+            (cls, len(full.get("ops", [])), len(state["ops"]), len(full.get("choices", [])), len(state["choices"] or []), sh.tests))
         final = run_replay(harness, flavour, state)
         final2 = run_replay(harness, flavour, state)
         if final.get("ok") or final.get("cls") != cls or final.get("fp") != final2.get("fp"):
@@ -571,11 +623,12 @@ def handle_failures(prop, spec, seed, tier, agg, known):
             continue
         seen_final.add(key)
         os.makedirs(os.path.join(VERIF, "replays"), exist_ok=True)
-        path = os.path.join(VERIF, "replays", "%s-%s-%s.json" % (prop, flavour, r0["seed"]))
+        path = os.path.join(VERIF, "replays", "%s-%s-%s.json" % (prop, flavour, run_seed))
         with open(path, "w") as f:
             json.dump(dict(property=prop, harness=harness, flavour=flavour, base_seed=seed, run_index=r0["i"],
-                           run_seed=r0["seed"], tier=tier, cfg=state["cfg"],
+                           run_seed=run_seed, tier=tier, cfg=state["cfg"],
                            sim=state["sim"], sim_names=SIM_NAMES, ops=state["ops"], choices=state["choices"],
+                           decision_seed=state.get("seed") if state["choices"] is None else None,
                            expect=dict(cls=cls, fp=final.get("fp")), detail=final.get("detail", "")[:3000],
                            original=dict(n_ops=len(full.get("ops", [])), n_choices=len(full.get("choices", [])),
                                          failing_runs_of_this_class=len(recs))), f, indent=1)
@@ -588,7 +641,7 @@ def do_replay(prop, spec, path):
         rp = json.load(f)
     flavour = rp.get("flavour", "plain")
     build(spec["harness"], [flavour])
-    state = dict(cfg=rp["cfg"], sim=rp["sim"], ops=rp["ops"], choices=rp["choices"])
+    state = dict(cfg=rp["cfg"], sim=rp["sim"], ops=rp["ops"], choices=rp["choices"], seed=rp.get("decision_seed"))
     r = run_replay(spec["harness"], flavour, state)
     exp = rp.get("expect", {})
     log("replay: ok=%s cls=%s fp=%s steps=%s" % (r.get("ok"), r.get("cls"), r.get("fp"), r.get("steps")))
